@@ -6,6 +6,7 @@ import (
 	"strings"
 	"testing"
 
+	"github.com/gookit/rux"
 	"pgregory.net/rapid"
 
 	"verifharness/chain"
@@ -39,7 +40,10 @@ func chainNames(c []*chain.Script) string {
 func prop(t *rapid.T) {
 	ev.Case()
 	w := chain.NewWorld()
-	opts := model.Options{Strict: rapid.Bool().Draw(t, "strict"), NotAllowed: rapid.Bool().Draw(t, "handle405")}
+	opts := model.Options{Strict: rapid.Bool().Draw(t, "strict"), NotAllowed: rapid.Bool().Draw(t, "handle405"), Via: model.GenVia(t)}
+	if rapid.IntRange(0, 2).Draw(t, "caching") == 0 {
+		opts.Caching, opts.CacheCap = true, rapid.IntRange(0, 3).Draw(t, "cap")
+	}
 	cfg := chain.ProgCfg{
 		MaxDepth: rapid.IntRange(0, ev.Pick(4, 6)).Draw(t, "maxDepth"), MaxMw: 3, MaxStmts: ev.Pick(4, 5),
 		LongChains: rapid.IntRange(0, ev.Pick(9, 3)).Draw(t, "longChains") == 0,
@@ -96,7 +100,28 @@ func prop(t *rapid.T) {
 			lateGlobal = true
 		}
 	}
-	for _, q := range chain.Requests(t, pm, rapid.IntRange(1, 3).Draw(t, "extraProbes")) {
+	reqs := chain.Requests(t, pm, rapid.IntRange(1, 3).Draw(t, "extraProbes"))
+	// "global middleware in Use order, including those added after the route was registered": sometimes one more
+	// global Use arrives after the first round of requests; the second round must run it everywhere
+	lateUse := rapid.IntRange(0, 3).Draw(t, "lateUse") == 0
+	rounds := [][][2]string{reqs}
+	if lateUse {
+		rounds = append(rounds, reqs)
+	}
+	for round, rq := range rounds {
+		if round == 1 {
+			late := chain.GenScript(t, w, "u", cfg.Script)
+			r.Use(w.Handler(late))
+			pm.Global = append(append([]*chain.Script{}, pm.Global...), late)
+			lateGlobal = true
+			ev.Class("global-Use-after-the-first-requests")
+		}
+		checkRound(t, w, r, pm, prog, rq, nsub, lateGlobal)
+	}
+}
+
+func checkRound(t *rapid.T, w *chain.World, r *rux.Router, pm *chain.PModel, prog *chain.Program, reqs [][2]string, nsub int, lateGlobal bool) {
+	for _, q := range reqs {
 		msg, info := chain.CheckRequest(w, r, pm, q[0], q[1])
 		if info.Skipped {
 			ev.Class("skipped:chain-longer-than-63")
